@@ -276,6 +276,16 @@ def check_chronological_input(rep: Report, rule: str) -> None:
     key_ok = keyf is not None and [unparse(s) for s in keyf.body] == [f"return {keyf.param_names[0]}.timestamp"]
     if ok and not key_ok:
         kv = sorts[0].keywords[0].value  # the same key spelled as a lambda or operator.attrgetter("timestamp")
+        if isinstance(kv, ast.Attribute) and isinstance(kv.value, ast.Name) and kv.value.id == "self":
+            # a key method: every implementation along the hierarchy must be the entry's timestamp; one that returns something else is a second ordering
+            base_cls = prog.cls("rp2.abstract_entry_set", "AbstractEntrySet")
+            impls = [c.methods[kv.attr] for c in [base_cls] + list(prog.subclasses(base_cls, strict=True)) if kv.attr in c.methods]
+            other = [f_ for f_ in impls if [unparse(s_) for s_ in f_.body if not norm._is_noise(s_)] != [f"return {f_.param_names[-1]}.timestamp"]]
+            for f_ in other:
+                rep.violation(rule, f_.module, f_.qualname, f"sort key method {f_.qualname}", f"{f_.qualname} is the key the entry list of its set is sorted by and returns {short(f_.body[-1], 80)}: entries are no longer ordered by timestamp alone with ties in insertion (row) order, so the list order of same-instant lots disagrees with the lot index keys", loc(f_.node), definite=True)
+            key_ok = bool(impls) and not other
+            if other:
+                key_ok = True  # reported above, once
         if isinstance(kv, ast.Lambda) and len(kv.args.args) == 1 and unparse(kv.body) == f"{kv.args.args[0].arg}.timestamp":
             key_ok = True
         if isinstance(kv, ast.Call) and unparse(kv.func) in ("attrgetter", "operator.attrgetter") and len(kv.args) == 1 and not kv.keywords and isinstance(kv.args[0], ast.Constant) and kv.args[0].value == "timestamp":
@@ -541,7 +551,12 @@ def check_seek_amounts(rep: Report, rule: str) -> None:
             conds = [show(c) for c in p.conds()]
             sel = p.vars.get("selected_acquired_lot_amount", (None,))[0]
             has = any("has_partial_amount" in c or "in lot_candidates" in c for c in conds)
-            if p.exit == "break":
+            exit_kind = p.exit
+            if exit_kind == "return":
+                # selection by returning from inside the loop instead of break + flag variables: the amount rules below read the flag idiom only
+                rep.defer_error(f"{loc(loop)}: {fi.qualname}: a path of the candidate loop returns {show(p.ret)[:100] if p.ret else None}: neither the break-and-flag nor the early-return selection idiom, not decided for this shape")
+                continue
+            if exit_kind == "break":
                 neg_has = any(c.startswith("not ") and ("__acquired_lot_2_partial_amount" in c) for c in conds) or any("not in" in c and "__acquired_lot_2_partial_amount" in c for c in conds)
                 if neg_has:
                     ok = sel == ("fld", lot, "InTransaction.__crypto_in")
@@ -549,7 +564,7 @@ def check_seek_amounts(rep: Report, rule: str) -> None:
                 else:
                     ok = sel is not None and "__acquired_lot_2_partial_amount" in show(sel) and any("> D0" in c for c in conds)
                     rep.check(ok, rule, fi.module, fi.qualname, f"{cls}: touched lot offers its cached remaining amount (> 0)", f"a lot with a cached partial amount is offered with amount {show(sel)[:160] if sel else None} under {conds[-1][:100] if conds else ''}; expected the cached amount, only when > ZERO", loc(loop))
-            elif p.exit == "continue":
+            elif exit_kind == "continue":
                 ok = any("__acquired_lot_2_partial_amount" in c and ("<= D0" in c or "not " in c) for c in conds)
                 rep.check(ok, rule, fi.module, fi.qualname, f"{cls}: only lots with zero remaining amount are skipped", f"a candidate lot is skipped under {conds}; only lots whose cached remaining amount is not > ZERO may be skipped", loc(loop))
             else:
